@@ -14,13 +14,14 @@ namespace Heimdall.Factory
 
 /-- the `if` of a step guards its mechanism with an expression -/
 def Cond.isExpr : Cond → Bool
-  | .expr => true
+  | .expr _ _ => true
   | _ => false
 
-/-- the `if` of a step is absent or an expression that compiles -/
+/-- the `if` of a step is absent or a boolean expression: one that parses, type-checks and whose **static result
+type is `bool`** (not `int`, `string`, a list, a map — and not `dyn` either) -/
 def Cond.usable : Cond → Bool
   | .absent => true
-  | .expr => true
+  | .expr _ t => decide (t = some .bool)
   | _ => false
 
 /-- The mechanism reference a step of `execute` stands for: the first of the keys `authenticator`, `authorizer`,
@@ -91,7 +92,7 @@ def orderedFrom : Nat → List Step → Bool
     | none => false
     | some st => decide (n ≤ st.rank) && orderedFrom st.rank ss
 
-/-- the `if` of a step is usable: absent or an expression that compiles (never looked at on authenticators) -/
+/-- the `if` of a step is usable: absent or a boolean expression (never looked at on authenticators) -/
 def Step.condOk (s : Step) : Bool :=
   s.authenticator.isSome || s.cond.usable
 
